@@ -6,6 +6,7 @@ import Driver.Tree
 import Driver.Wire
 import Driver.PC
 import Driver.Match
+import Driver.Bus
 /-
   Line-protocol driver over Dbus.Model (compiled; imports no proofs and no Mathlib).
 
@@ -38,6 +39,7 @@ structure Stats where
   nontrivial : Nat := 0
   tree : TreeState := {}
   pc : Dbus.Model.PC.State := {}
+  bus : BusState := {}
 
 def handle (st : Stats) (line : String) : Stats × Option String :=
   let toks := (line.trimAscii.toString.splitOn " ").filter (· ≠ "")
@@ -46,6 +48,9 @@ def handle (st : Stats) (line : String) : Stats × Option String :=
   | "tree" :: rest =>
     let (t, ans) := treeCmd st.tree rest
     ({ st with tree := t, bad := if ans = "bad-op" then st.bad + 1 else st.bad }, some ans)
+  | "bus" :: rest =>
+    let (b, ans) := busCmd st.bus rest
+    ({ st with bus := b, bad := if ans = "bad-op" then st.bad + 1 else st.bad }, some ans)
   | "pc" :: rest =>
     let (p, ans) := pcCmd st.pc rest
     ({ st with pc := p, bad := if ans = "bad-op" then st.bad + 1 else st.bad }, some ans)
